@@ -24,7 +24,7 @@ var c15extLists = [][]string{
 	{"", ".html"},
 	{".jet", ""},
 }
-var c15entries = []string{"get", "extends", "import", "include", "include-computed-ctx", "include-computed-var", "exec", "includeIfExists", "exec-computed"}
+var c15entries = []string{"get", "extends", "import", "include", "include-computed-ctx", "include-computed-var", "exec", "includeIfExists", "exec-computed", "import-after-extends"}
 
 func c15clean(p string) bool {
 	return strings.HasPrefix(p, "/") && path.Clean(p) == p && !strings.Contains(p, "\\")
@@ -132,6 +132,8 @@ func c15refBody(entry, spelling string) string {
 		return "{{extends " + q + "}}IGNORED"
 	case "import":
 		return "{{import " + q + "}}{{yield mark()}}"
+	case "import-after-extends": // the layout lives in another directory; the import still resolves against THIS file
+		return "{{extends \"/zl/base\"}}{{import " + q + "}}"
 	case "include":
 		return "<{{include " + q + "}}>"
 	case "include-computed-ctx":
@@ -189,7 +191,7 @@ func c15run(c *fw.Ctx, idx int) {
 	}
 	relBase := "/"
 	switch cs.Entry {
-	case "extends", "import", "include", "include-computed-ctx", "include-computed-var":
+	case "extends", "import", "include", "include-computed-ctx", "include-computed-var", "import-after-extends":
 		relBase = cs.RefDir
 	}
 	var sp string
@@ -209,6 +211,10 @@ func c15run(c *fw.Ctx, idx int) {
 	refPath := refBase + cs.Exts[0]
 	if cs.Entry != "get" {
 		files[refPath] = c15refBody(cs.Entry, sp)
+	}
+	if cs.Entry == "import-after-extends" {
+		files["/zl/base"+cs.Exts[0]] = "L{{yield mark()}}"
+		files["/zl/part"+cs.Exts[0]] = c15partBody("/zl/part" + cs.Exts[0])
 	}
 	if cs.Entry != "get" && r.Intn(4) == 0 {
 		// Set.Parse(name, source): the name resolves against the root like any other, relative or not
@@ -286,7 +292,7 @@ func c15run(c *fw.Ctx, idx int) {
 			c.Violation(sig("unclean-path-to-loader"), "", fmt.Sprintf("Loader.%s(%q)", call.Op, call.Path))
 			return
 		}
-		if call.Op == "Exists" {
+		if call.Op == "Exists" && !(cs.Entry == "import-after-extends" && strings.HasPrefix(call.Path, "/zl/base")) {
 			exists = append(exists, call.Path)
 		}
 	}
@@ -324,6 +330,8 @@ func c15run(c *fw.Ctx, idx int) {
 		want = "[P:" + found + "][B:" + found + "]"
 	case cs.Entry == "import":
 		want = "[B:" + found + "]"
+	case cs.Entry == "import-after-extends":
+		want = "L[B:" + found + "]"
 	case cs.Entry == "exec" || cs.Entry == "exec-computed":
 		want = "<[R:" + found + "]>"
 	default:
